@@ -94,6 +94,8 @@ def run(ctx, model: Model):
                     continue        # the exception class is a parameter; every call site passes a library exception class
                 if name not in exc_classes and isinstance(node.exc, ast.Call) and _returns_library_exception(model, m, node.exc.func, exc_classes):
                     continue        # `raise helper(...)`: every return of the helper constructs a library exception
+                if name not in exc_classes and isinstance(exc, ast.Name) and _local_from_exception_table(model, m, node, exc.id, exc_classes):
+                    continue        # the class is looked up in a class-level / module-level table whose entries are library exception classes
                 if name not in exc_classes:
                     ctx.violation("R-RAISE", m.relpath, _owner(model, node), norm_text(node)[:80],
                                   f"raises `{name}`, which is not one of the library's documented exception classes", node.lineno)
@@ -262,6 +264,14 @@ def _term(ctx, model):
         by_simple.setdefault(g.node.name, []).append(g)
     dunder = {ast.Add: ("__add__", "__radd__"), ast.Mult: ("__mul__", "__rmul__"), ast.BitOr: ("__or__", "__ror__"),
               ast.Sub: ("__sub__", "__rsub__")}
+    # a method call on a receiver that is known to be a built-in set (`ranges1.union(ranges2)`) is not a call of a
+    # library method that happens to have the same name (a public `union()` on the class base)
+    try:
+        from .c20 import SetFlow as _SetFlow
+        _sf = _SetFlow(model)
+        _is_set = lambda f_, e_: _sf.is_set(f_, e_) if f_ in _sf.set_vars else False
+    except Exception:          # the set-type inference is an optimisation of precision only
+        _is_set = lambda f_, e_: False
     for f in funcs:
         for n in ast.walk(f.node):
             if model._owner_def(n, None) is not f.node and n is not f.node:
@@ -287,6 +297,8 @@ def _term(ctx, model):
                         else:
                             nm = fn.attr
                             cands = by_simple.get(nm, [])
+                            if nm in dir(set) and _is_set(f, fn.value):
+                                cands = []
                             if f.cls is not None and isinstance(fn.value, ast.Name) and fn.value.id in ("self", "__class__"):
                                 m = f.cls.find_method(mangle(nm, f.cls.name))
                                 cands = [m] if m else [c for c in cands if c.cls is not None]
@@ -436,6 +448,54 @@ def _returns_library_exception(model, m, fexpr, exc_classes):
         v = r.value
         f = v.func if isinstance(v, ast.Call) else None
         nm = f.attr if isinstance(f, ast.Attribute) else f.id if isinstance(f, ast.Name) else None
+        if nm not in exc_classes:
+            return False
+    return True
+
+
+def _local_from_exception_table(model, m, node, lname, exc_classes):
+    """`a, b, err = TABLE[key]; raise err(...)` (or `err = TABLE[key]`): true iff TABLE is a dict literal at class or
+    module level and, in EVERY one of its values, the element that lands in `err` names a library exception class."""
+    fn = model.parents.get(node)
+    while fn is not None and not isinstance(fn, ast.FunctionDef):
+        fn = model.parents.get(fn)
+    if fn is None:
+        return False
+    binds = []
+    for a in ast.walk(fn):
+        if isinstance(a, ast.Assign) and len(a.targets) == 1:
+            t = a.targets[0]
+            if isinstance(t, ast.Name) and t.id == lname:
+                binds.append((a.value, None))
+            elif isinstance(t, ast.Tuple):
+                for i, e in enumerate(t.elts):
+                    if isinstance(e, ast.Name) and e.id == lname:
+                        binds.append((a.value, i))
+    if len(binds) != 1:
+        return False
+    src, idx = binds[0]
+    if not (isinstance(src, ast.Subscript)):
+        return False
+    tname = src.value.attr if isinstance(src.value, ast.Attribute) else (src.value.id if isinstance(src.value, ast.Name) else None)
+    if tname is None:
+        return False
+    tables = []
+    for x in ast.walk(m.tree):
+        tgt, val = (x.targets[0], x.value) if isinstance(x, ast.Assign) and len(x.targets) == 1 else \
+            ((x.target, x.value) if isinstance(x, ast.AnnAssign) else (None, None))
+        if isinstance(tgt, ast.Name) and tgt.id == tname and val is not None and isinstance(model.parents.get(x), (ast.ClassDef, ast.Module)):
+            if isinstance(val, ast.Call) and val.args and isinstance(val.args[0], ast.Dict):      # MappingProxyType({...})
+                val = val.args[0]
+            tables.append(val)
+    if len(tables) != 1 or not isinstance(tables[0], ast.Dict) or not tables[0].values:
+        return False
+    for v in tables[0].values:
+        e = v
+        if idx is not None:
+            if not (isinstance(v, (ast.Tuple, ast.List)) and idx < len(v.elts)):
+                return False
+            e = v.elts[idx]
+        nm = e.attr if isinstance(e, ast.Attribute) else (e.id if isinstance(e, ast.Name) else None)
         if nm not in exc_classes:
             return False
     return True
